@@ -81,10 +81,27 @@ class Recorder:
 
     # -- command side ---------------------------------------------------------
     def which_cmd(self, proc):
+        """Which of the two given commands does this process execute?  By
+        the content of the executable (the copies ddSMT makes keep it)."""
+        from . import seams
+        r = getattr(proc, '_role', None)
+        if r is not None:
+            return r
         b = os.path.basename(proc.args[0]) if proc.args else ''
-        if b in ('binary_cc', 'cmd_cc'):
-            return 'cc'
-        return 'main'
+        try:
+            with open(proc.args[0], 'r') as f:
+                data = f.read()
+        except (OSError, IndexError, UnicodeDecodeError):
+            data = None
+        if data == seams.CC_TEXT:
+            r = 'cc'
+        elif data == seams.MAIN_TEXT:
+            r = 'main'
+        else:
+            proc._foreign_exec = True
+            r = 'cc' if b in ('binary_cc', 'cmd_cc') else 'main'
+        proc._role = r
+        return r
 
     def on_popen(self, proc):
         S = CTX.S
@@ -112,14 +129,8 @@ class Recorder:
             'check': None,
             'read_seq': None,
         }
-        try:
-            import os as _os
-            src = _os.path.join(CTX.sandbox, 'cmd_cc' if _os.path.basename(
-                proc.args[0]) == 'binary_cc' else 'cmd')
-            with open(proc.args[0], 'rb') as f1, open(src, 'rb') as f2:
-                d['bin_same'] = f1.read() == f2.read()
-        except OSError:
-            d['bin_same'] = None
+        d['role'] = self.which_cmd(proc)
+        d['bin_same'] = not getattr(proc, '_foreign_exec', False)
         oc = self.open_checks.get(proc.actor)
         if oc is not None:
             d['check'] = oc['idx']
